@@ -1,1 +1,145 @@
-From FS Require Import Sx.
+(* C15 — Copy onto existing content follows overlay rules and is idempotent.
+   Only the property theorems (closed by [exact]) and their [Print Assumptions]; the model of
+   /repo/copy is Model/Copier.v, the declarative overlay rules are Model/CopySpec.v
+   ([overlay_all]), proofs in Proofs/Copy*P.v.
+
+   Reading guide.  [copy_top o sel sroot fs src dst] = copy.Copy on the destination file system
+   [fs] (names -> inode ids -> dentries, so hard links and metadata sharing are as on disk) with
+   the source tree [sroot]; it returns the final state and the error.  [overlay_all o sroot V src
+   dst] computes from the destination VIEW alone what must be at every path afterwards
+   ([xr_view]: dentry, whether its mtime is determined, an inode KEY: same key <-> same inode),
+   the notifications, or the error ([XConflict cls path obstacle], [XOther cls], [XScope] = a
+   symlink on an argument path, C14's subject).  [view_matches V X] = every path of V carries
+   exactly the entry X demands (all stat fields, xattrs, bytes, symlink target; mtime unless
+   unspecified) and two non-directories share an inode iff their keys are equal.
+   [wf_src]: sibling names distinct, only directories have children, valid types, symlinks 0777,
+   xattrs sorted by key.  [wf_fs]: ids below [next], every entry has a parent directory,
+   directories have one name, the root is a directory.
+   The theorems named _partial are proved for sources without multiply-linked files
+   ([no_link_groups]); see props/C15.json for the gap. *)
+From Coq Require Import List NArith Bool.
+From FS Require Import Sx Model.Path Model.SymMode Model.Copier Model.CopySpec
+  Proofs.CopierP Proofs.CopyOpsP Proofs.CopyTopP Proofs.CopyThmP Proofs.CopyConflictP Proofs.CopyEx.
+Import ListNotations.
+Open Scope N_scope.
+Open Scope bool_scope.
+
+(* Full statement (copy_overlay): for every well-formed source tree — link groups and wildcard
+   sources included — and every destination:  the result of a successful Copy is
+   [overlay_all], the notifications are [xr_notifs], and a predicted error is the reported one.
+   Proved part: sources without link groups (all options, wildcards included). *)
+Theorem copy_overlay_partial :
+  forall o sroot, wf_src sroot -> no_link_groups sroot ->
+  forall fs src dst r, wf_fs fs -> overlay_all o sroot (view_of_fs fs) src dst = inl r ->
+    exists st', copy_top o sel_all sroot fs src dst = (st', None) /\
+                view_matches (view_of_fs (c_fs st')) (xr_view r) /\
+                rev (c_notifs st') = xr_notifs r.
+Proof. exact copy_overlay_partial_proof. Qed.
+
+Theorem copy_error_partial :
+  forall o sroot, wf_src sroot -> no_link_groups sroot ->
+  forall fs src dst xe, wf_fs fs -> overlay_all o sroot (view_of_fs fs) src dst = inr xe ->
+    exists st' e, copy_top o sel_all sroot fs src dst = (st', Some e) /\ err_cls e = xerr_cls xe.
+Proof. exact copy_error_partial_proof. Qed.
+
+(* A directory meeting a non-directory (class 1: source directory over a non-directory, class 2:
+   source non-directory over a directory) without always-replace: Copy fails with that class and
+   the obstacle is still at its path with the same dentry and the same inode. *)
+Theorem conflict_is_error_and_keeps_obstacle_partial :
+  forall o sroot, wf_src sroot -> no_link_groups sroot ->
+  forall fs src dst cls p bef, wf_fs fs ->
+    overlay_all o sroot (view_of_fs fs) src dst = inr (XConflict cls p bef) ->
+    o_replace o = false /\
+    exists st' e be i,
+      copy_top o sel_all sroot fs src dst = (st', Some e) /\ err_cls e = cls /\
+      bef = Some be /\
+      ((cls = 1 /\ is_dir (x_d be) = false) \/ (cls = 2 /\ is_dir (x_d be) = true)) /\
+      names (c_fs st') p = Some i /\ dent_match (inodes (c_fs st') i) be = true /\
+      (forall j, x_key be = KDst j -> i = j).
+Proof. exact conflict_is_error_and_keeps_obstacle_partial_proof. Qed.
+
+(* With always-replace no clash is ever reported (the source entry replaces the obstacle: that
+   is then part of copy_overlay, see ex_replace below). *)
+Theorem always_replace_never_conflicts :
+  forall o sroot V0 src dst cls p bef,
+    o_replace o = true -> overlay_all o sroot V0 src dst <> inr (XConflict cls p bef).
+Proof. exact always_replace_never_conflicts_proof. Qed.
+
+(* A successful Copy leaves a well-formed file system, so it can be copied onto again. *)
+Theorem copy_preserves_wf :
+  forall o sroot, wf_src sroot -> no_link_groups sroot ->
+  forall fs src dst st', wf_fs fs -> copy_top o sel_all sroot fs src dst = (st', None) -> wf_fs (c_fs st').
+Proof. exact copy_preserves_wf_proof. Qed.
+
+Print Assumptions copy_overlay_partial.
+Print Assumptions copy_error_partial.
+Print Assumptions conflict_is_error_and_keeps_obstacle_partial.
+Print Assumptions always_replace_never_conflicts.
+Print Assumptions copy_preserves_wf.
+
+(* ---- non-vacuity ---- *)
+Example ex_hypotheses :
+  wf_src ex_src /\ no_link_groups ex_src /\ wf_fs fs_empty /\ wf_fs ex_dst.
+Proof. exact (conj (proj1 ex_src_wf) (conj (proj2 ex_src_wf) (conj fs_empty_wf ex_dst_wf))). Qed.
+
+Definition ex_paths : list (list (list N)) :=
+  [ []; [n_d]; [n_d; n_f]; [n_d; n_f; n_x]; [n_d; n_g]; [n_d; n_l]; [n_d; n_p]; [n_p]; [n_x]; [n_d; n_d] ].
+
+(* d/f is a directory in the destination, a file in the source: class 2 at d/f, the directory
+   d/f and its content stay (same inode), the unrelated d/g too *)
+Example ex_conflict :
+  match overlay_all o_plain ex_src (view_of_fs ex_dst) n_d s_slash,
+        copy_top o_plain sel_all ex_src ex_dst n_d s_slash with
+  | inr (XConflict cls p (Some be)), (st', Some e) =>
+      N.eqb cls 2 && path_eqb p [n_d; n_f] && is_dir (x_d be) && N.eqb (err_cls e) 2 &&
+      (match names (c_fs st') [n_d; n_f], names ex_dst [n_d; n_f] with
+       | Some i, Some j => N.eqb i j && dent_match (inodes (c_fs st') i) be
+       | _, _ => false end) &&
+      (match lstat (c_fs st') [n_d; n_f; n_x] with Some d => is_reg d | None => false end)
+  | _, _ => false
+  end = true.
+Proof. vm_compute. reflexivity. Qed.
+
+(* the same call with always-replace: the file wins, d/f/x is gone, d/g stays; d, the directory
+   named by the call, is merged into: it keeps owner, mode and xattrs and gets the source's time *)
+Example ex_replace :
+  match overlay_all o_replace_on ex_src (view_of_fs ex_dst) n_d s_slash,
+        copy_top o_replace_on sel_all ex_src ex_dst n_d s_slash with
+  | inl r, (st', None) =>
+      view_matches_b (view_of_fs (c_fs st')) (xr_view r) ex_paths &&
+      (match lstat (c_fs st') [n_d; n_f] with Some d => is_reg d && bytes_eqb (d_content d) [104; 105] | None => false end) &&
+      (match lstat (c_fs st') [n_d; n_f; n_x] with Some _ => false | None => true end) &&
+      (match lstat (c_fs st') [n_d; n_g] with Some d => bytes_eqb (d_content d) [111; 108; 100] | None => false end) &&
+      (match lstat (c_fs st') [n_d] with
+       | Some d => N.eqb (d_uid d) 0 && N.eqb (perm12 d) 448 && N.eqb (d_mtime d) 1000 &&
+                   xattrs_eqb (d_xattrs d) [([97], [2])]
+       | None => false end)
+  | _, _ => false
+  end = true.
+Proof. vm_compute. reflexivity. Qed.
+
+(* a non-directory copied to an existing directory lands inside it; one notification *)
+Example ex_file_into_dir :
+  match overlay_all o_plain ex_src (view_of_fs ex_dst) n_p n_d,
+        copy_top o_plain sel_all ex_src ex_dst n_p n_d with
+  | inl r, (st', None) =>
+      view_matches_b (view_of_fs (c_fs st')) (xr_view r) ex_paths &&
+      (match lstat (c_fs st') [n_d; n_p] with Some d => N.eqb (ftype d) S_IFIFO | None => false end) &&
+      (match rev (c_notifs st') with [(p, false)] => path_eqb p [n_d; n_p] | _ => false end) &&
+      (match xr_landings r with [L] => path_eqb L [n_d; n_p] | _ => false end)
+  | _, _ => false
+  end = true.
+Proof. vm_compute. reflexivity. Qed.
+
+(* wildcards: "*" = d and p, both land in the not yet existing n/ ... the first match creates it *)
+Example ex_wildcard :
+  let o := {| o_chown := None; o_mode := None; o_modestr := []; o_utime := None; o_dircontents := false;
+              o_replace := false; o_wild := true; o_umask := 18 |} in
+  match overlay_all o ex_src (view_of_fs fs_empty) [42] [120; 47],
+        copy_top o sel_all ex_src fs_empty [42] [120; 47] with
+  | inl r, (st', None) =>
+      view_matches_b (view_of_fs (c_fs st')) (xr_view r) ([n_x; n_d] :: [n_x; n_d; n_f] :: [n_x; n_d; n_l] :: [n_x; n_p] :: ex_paths) &&
+      (match lstat (c_fs st') [n_x; n_d; n_f], lstat (c_fs st') [n_x; n_p] with Some _, Some _ => true | _, _ => false end)
+  | _, _ => false
+  end = true.
+Proof. vm_compute. reflexivity. Qed.
